@@ -2817,8 +2817,13 @@ class WorkflowGraph(object):
             ref_condition, (cond_stage, cond_name)
         ))
 
+        # VV: Component names are unique within a stage only: another DoWhile document may contain a component with
+        #     the same name. A stage index in the condition reference is relative to the stage of the $import
+        if FlowIR.ParseProducerReference(FlowIR.ParseDataReference(ref_condition)[0], import_in_stage)[2]:
+            cond_stage += import_in_stage
+
         condition_instances = sorted(
-            [c for c in all_looped_ids if c[1].split('#', 1)[1] == cond_name],
+            [c for c in all_looped_ids if int(c[0]) == cond_stage and c[1].split('#', 1)[1] == cond_name],
             # VV: Sort on iteration number from stage<idx:%d>.<iteration-no:%d>#<name:str>
             key=lambda c: int(c[1].split('#', 1)[0]),
             reverse=True
